@@ -52,6 +52,10 @@ func loginFor(cls, user string) *envx.Login {
 	case "subissuer", "issuerslash":
 		// issuers that are not the provider's but look like it: a path below it, the same with a slash appended
 		l.Issuer = "<" + cls + ">"
+	case "noaud":
+		l.Audience = "<absent>"
+	case "emptyaud":
+		l.Audience = "<empty-list>"
 	case "wrongaud":
 		l.Audience = "some-other-client"
 	case "expired":
